@@ -6,6 +6,7 @@
 -/
 import FalconModel.Isa.X86
 import Std.Tactic.BVDecide
+set_option linter.unusedSimpArgs false
 
 namespace Falcon.C01
 open Falcon.X86
@@ -40,30 +41,30 @@ theorem get8h (σ : St) (i : Nat) : getReg σ ⟨i, 8, 8⟩ 8 = fGetHigh (σ.gpr
 theorem set64 (old v : BitVec 64) (i : Nat) : mergeReg old ⟨i, 64, 0⟩ v = v := by
   simp [mergeReg]
 theorem set32 (old : BitVec 64) (v : BitVec 32) (i : Nat) : mergeReg old ⟨i, 32, 0⟩ (v.setWidth 64) = fSet32 v := by
-  simp only [mergeReg, fSet32]; bv_decide
+  simp only [mergeReg, fSet32, ge_iff_le, Nat.reduceLeDiff, Nat.reduceEqDiff, ↓reduceIte, Nat.reducePow, Nat.reduceSub]; bv_decide
 theorem set16 (old : BitVec 64) (v : BitVec 16) (i : Nat) : mergeReg old ⟨i, 16, 0⟩ (v.setWidth 64) = fSetLow old v := by
-  simp only [mergeReg, fSetLow]; bv_decide
+  simp only [mergeReg, fSetLow, ge_iff_le, Nat.reduceLeDiff, Nat.reduceEqDiff, ↓reduceIte, Nat.reducePow, Nat.reduceSub]; bv_decide
 theorem set8 (old : BitVec 64) (v : BitVec 8) (i : Nat) : mergeReg old ⟨i, 8, 0⟩ (v.setWidth 64) = fSetLow old v := by
-  simp only [mergeReg, fSetLow]; bv_decide
+  simp only [mergeReg, fSetLow, ge_iff_le, Nat.reduceLeDiff, Nat.reduceEqDiff, ↓reduceIte, Nat.reducePow, Nat.reduceSub]; bv_decide
 theorem set8h (old : BitVec 64) (v : BitVec 8) (i : Nat) : mergeReg old ⟨i, 8, 8⟩ (v.setWidth 64) = fSetHigh old v := by
-  simp only [mergeReg, fSetHigh]; bv_decide
+  simp only [mergeReg, fSetHigh, ge_iff_le, Nat.reduceLeDiff, Nat.reduceEqDiff, ↓reduceIte, Nat.reducePow, Nat.reduceSub]; bv_decide
 
 /-! the architecture's rules themselves, as consequences (sanity of the specification) -/
 
 theorem write32_zero_extends (old : BitVec 64) (v : BitVec 32) (i : Nat) :
     (mergeReg old ⟨i, 32, 0⟩ (v.setWidth 64)) >>> 32 = 0 ∧ (mergeReg old ⟨i, 32, 0⟩ (v.setWidth 64)).setWidth 32 = v := by
-  simp only [mergeReg]; constructor <;> bv_decide
+  simp only [mergeReg, ge_iff_le, Nat.reduceLeDiff, Nat.reduceEqDiff, ↓reduceIte, Nat.reducePow, Nat.reduceSub]; constructor <;> bv_decide
 theorem write16_preserves (old : BitVec 64) (v : BitVec 16) (i : Nat) :
     (mergeReg old ⟨i, 16, 0⟩ (v.setWidth 64)) >>> 16 = old >>> 16 ∧ (mergeReg old ⟨i, 16, 0⟩ (v.setWidth 64)).setWidth 16 = v := by
-  simp only [mergeReg]; constructor <;> bv_decide
+  simp only [mergeReg, ge_iff_le, Nat.reduceLeDiff, Nat.reduceEqDiff, ↓reduceIte, Nat.reducePow, Nat.reduceSub]; constructor <;> bv_decide
 theorem write8_preserves (old : BitVec 64) (v : BitVec 8) (i : Nat) :
     (mergeReg old ⟨i, 8, 0⟩ (v.setWidth 64)) >>> 8 = old >>> 8 ∧ (mergeReg old ⟨i, 8, 0⟩ (v.setWidth 64)).setWidth 8 = v := by
-  simp only [mergeReg]; constructor <;> bv_decide
+  simp only [mergeReg, ge_iff_le, Nat.reduceLeDiff, Nat.reduceEqDiff, ↓reduceIte, Nat.reducePow, Nat.reduceSub]; constructor <;> bv_decide
 theorem write_high_byte (old : BitVec 64) (v : BitVec 8) (i : Nat) :
     (mergeReg old ⟨i, 8, 8⟩ (v.setWidth 64)) >>> 16 = old >>> 16 ∧
     (mergeReg old ⟨i, 8, 8⟩ (v.setWidth 64)).setWidth 8 = old.setWidth 8 ∧
     ((mergeReg old ⟨i, 8, 8⟩ (v.setWidth 64)) >>> 8).setWidth 8 = v := by
-  simp only [mergeReg]; refine ⟨?_, ?_, ?_⟩ <;> bv_decide
+  simp only [mergeReg, ge_iff_le, Nat.reduceLeDiff, Nat.reduceEqDiff, ↓reduceIte, Nat.reducePow, Nat.reduceSub]; refine ⟨?_, ?_, ?_⟩ <;> bv_decide
 
 /-- the defect repaired by da452c2, as a theorem about the OLD expression: with the un-negated mask the write
     to a high-byte register destroys the rest of the register for some contents -/
